@@ -81,9 +81,9 @@ def _rows_chunk(cases):
     return bad
 
 
-def rows_and_tags(max_len, timeout=3000):
+def rows_and_tags(max_len, tag_len=8, timeout=3000):
     with Scratch("mdr") as sc:
-        sc.write("MC_MarkdownRows.cfg", f"SPECIFICATION Spec\nCONSTANT MaxLen = {max_len}\nCONSTRAINT Emit\nINVARIANT Inv_RowWindow\nINVARIANT Inv_Tags\nCHECK_DEADLOCK FALSE\n")
+        sc.write("MC_MarkdownRows.cfg", f"SPECIFICATION Spec\nCONSTANT MaxLen = {max_len}\nCONSTANT TagLen = {tag_len}\nCONSTRAINT Emit\nINVARIANT Inv_RowWindow\nINVARIANT Inv_Tags\nCHECK_DEADLOCK FALSE\n")
         res = run_tlc(sc, "MC_MarkdownRows", timeout=timeout, extra=["-continue"])
     if "Parsing or semantic analysis failed" in res.out or not res.finished or any("Invariant" not in e and "violated" not in e for e in res.errors):
         raise MachineryError("MC_MarkdownRows did not complete:\n" + "\n".join(res.out.splitlines()[-40:]))
